@@ -87,10 +87,14 @@ double GammaDiscreteDistribution::qProb(double x) const
 
 double GammaDiscreteDistribution::pProb(double x) const
 {
+  if (x <= offset_)
+    return 0;
   return RandomTools::pGamma(x - offset_, alpha_, beta_);
 }
 
 double GammaDiscreteDistribution::Expectation(double a) const
 {
+  if (a <= offset_)
+    return 0;
   return RandomTools::pGamma(a - offset_, alpha_ + 1, beta_) / beta_ * ga1_ + offset_ * RandomTools::pGamma(a - offset_, alpha_, beta_);
 }
